@@ -24,7 +24,11 @@ TBegin  == IsEvent("begin")
            /\ Ev.new_inputs = <<>>                      \* a run with other inputs on a kept folder is never accepted (below)
            /\ (Len(Ev.fixedraw) > 0 => ValidFixed(d, MapDenoteF(d, inp, FSet(Ev.F)), Ev.fixedraw))
            /\ Begin([F |-> FSet(Ev.F), cleanup |-> Ev.cleanup,
-                     fixed |-> IF Len(Ev.fixedraw) > 0 THEN FixedOf(Ev.fixedraw) ELSE Ev.fixed]) /\ exc' = NoExc
+                     fixed |-> IF Len(Ev.fixedraw) > 0 THEN FixedOf(Ev.fixedraw) ELSE Ev.fixed,
+                     cache |-> Ev.cache,
+                     (* what the (same) cache object has seen so far: invocations completed in earlier cached runs *)
+                     memo |-> IF Ev.cache THEN Memo \cup (IF Cached THEN {<<e[1], KwOfElem(e)>> : e \in done} ELSE {}) ELSE {}])
+           /\ exc' = NoExc
 (* C06 PartExact: what is completely stored now is exactly what the model says (earlier parts + this selection) *)
 TStored == IsEvent("stored") /\ phase = "idle" /\ UNCHANGED mvars /\ UNCHANGED exc
            /\ StoredFromDisk({<<Ev.disk[k][1], Ev.disk[k][2]>> : k \in DOMAIN Ev.disk}) = stored
